@@ -53,8 +53,6 @@ class Oracle:
             w = self.walk.get(sid)
             if w is not None:
                 w["mut"] = True
-                if name in ("compact", "xfer"):
-                    self.walk.pop(sid)
         if name != "compact":
             self.more[sid] = 0
         if name in ("put", "putraw"):
@@ -180,9 +178,11 @@ class Oracle:
                     self.hit("xfer_merge_incoming_wins")
                 else:
                     self.hit("xfer_merge_current_wins")
-            w = self.walk.get(a[1])
-            if w is not None:
-                self.walk.pop(a[1])
+            for wid in (sid, a[1]):
+                w = self.walk.get(wid)
+                if w is not None:
+                    w["mut"] = True
+                    w["touched"].update(order)
             return None
         if name == "scan":
             cur, count, pat = a[1], int(a[2]), a[3]
@@ -394,6 +394,36 @@ class Gen:
         yield "dump %s" % sid
         yield from self.walk(sid, "*")
 
+    def walk_mixed(self, orc, sid):
+        """a paged scan with other operations, compaction included, between the pages"""
+        r = self.rng
+        cnt = r.choice([1, 2, 3, 5])
+        rep = yield "scan %s 0 %d *" % (sid, cnt)
+        for _ in range(400):
+            if rep.split()[0] in ("0", "nf", "hang", "dead") or rep.startswith("panic"):
+                break
+            for _ in range(r.randint(0, 3)):
+                yield self.next(orc)
+            kill = r.random() < 0.4
+            if kill:
+                # turn what was already yielded into garbage so that the table the cursor points
+                # into is drained and recycled before the next page
+                w_ = orc.walk.get(sid)
+                seen = set(w_["seen"]) if w_ else set()
+                for hk, v in sorted(orc.ref.get(sid, {}).items()):
+                    if v[0] in seen and hk != 1000:
+                        yield "del %s %d" % (sid, hk)
+                orc.hit("walk_kill_scanned")
+            if kill or r.random() < 0.35:
+                for _ in range(100):
+                    rr = yield "compact %s" % sid
+                    if not rr.startswith("more"):
+                        break
+            if sid not in orc.walk:
+                break
+            rep = yield "scan %s @ %d *" % (sid, cnt)
+        orc.hit("walk_mixed")
+
     def walk(self, sid, pat):
         cnt = self.rng.choice([1, 2, 3, 7, 1000])
         rep = yield "scan %s 0 %d %s" % (sid, cnt, pat)
@@ -418,6 +448,8 @@ class Gen:
         for _ in range(nops):
             if self.rng.random() < 0.01:
                 yield from self.age(self.rng.choice(["a", "b"]))
+            if self.rng.random() < 0.012:
+                yield from self.walk_mixed(orc, self.rng.choice(["a", "a", "b"]))
             yield self.next(orc)
         # closing: dumps, compaction to completion, full scan walks with and without a pattern
         r = self.rng
@@ -437,4 +469,4 @@ class Gen:
 
 HEADER = 4
 REQUIRED_SHAPES = ["overwrite", "delete_present", "xfer_table", "compaction_step", "scan_walk_done",
-                   "size_eq_table", "sweep_freed_table", "pinned_first_table", "xfer_merge_current_wins", "xfer_merge_incoming_wins"]
+                   "size_eq_table", "sweep_freed_table", "pinned_first_table", "walk_mixed", "walk_kill_scanned", "scan_walk_with_mutation", "xfer_merge_current_wins", "xfer_merge_incoming_wins"]
